@@ -116,6 +116,27 @@ import collections.abc  # noqa: E402
 collections.abc.Sequence.register(_IntSeq)
 
 
+def chunk_arg(call):
+    """The chunk size handed to the API: 'everything in one chunk' may be spelled as a huge int or as infinity (the oracles
+    work with call["chunk"], which is then larger than the input)."""
+    return {"maxsize": sys.maxsize, "huge": 2 ** 100, "inf": math.inf}.get(call.get("chunk_special"), call["chunk"])
+
+
+class _HintedIter:
+    """An iterable whose __length_hint__ over-estimates (PEP 424 allows a hint to be wrong): e.g. a progress-bar wrapper with
+    an approximate total, a view that skips records while iterating."""
+
+    def __init__(self, items, extra):
+        self._items = list(items)
+        self._extra = extra
+
+    def __iter__(self):
+        return iter(self._items)
+
+    def __length_hint__(self):
+        return len(self._items) + self._extra
+
+
 class _SizedView:
     """Sized and re-iterable, no Sequence (no indexing), like a dict view or a set."""
 
@@ -183,6 +204,8 @@ def make_input(call, ci, sh):
     form = call.get("form", "list")
     if form == "array_like":
         return _ArrayLike(items)
+    if form == "hinted":
+        return _HintedIter(items, 3)
     if form == "list":
         return items
     if form == "tuple":
@@ -575,7 +598,7 @@ def run_case_here(case, outpath, scratch):
             pre_gens = None
             if case.get("create_all_first"):
                 # the caller builds all its result generators first and consumes them one after the other
-                pre_gens = [(pool.imap if c_["ordered"] else pool.imap_unordered)(make_input(c_, k_, sh), c_["chunk"])
+                pre_gens = [(pool.imap if c_["ordered"] else pool.imap_unordered)(make_input(c_, k_, sh), chunk_arg(c_))
                             for k_, c_ in enumerate(case["calls"])]
             for ci, call in enumerate(case["calls"]):
                 state["phase"] = "call"
@@ -600,7 +623,7 @@ def run_case_here(case, outpath, scratch):
                 sh.log("call_start", call=ci)
                 try:
                     gen = pre_gens[ci] if pre_gens is not None else \
-                        (pool.imap if call["ordered"] else pool.imap_unordered)(data, call["chunk"])
+                        (pool.imap if call["ordered"] else pool.imap_unordered)(data, chunk_arg(call))
                     for y in gen:
                         got_one.release()
                         rec["yields"].append(_compact(y, call))
@@ -746,7 +769,7 @@ def drive_fmap(case, sh, state):
             pre = []
             try:
                 for ci, call in enumerate(case["calls"]):
-                    pre.append(m(make_input(call, ci, sh), call["chunk"]))
+                    pre.append(m(make_input(call, ci, sh), chunk_arg(call)))
             except Exception as e:
                 rec = {"yields": [], "completed": False, "exception": f"creating the generator of call {len(pre)}: {type(e).__name__}: {e}"}
                 state["calls"].append(rec)
@@ -759,7 +782,7 @@ def drive_fmap(case, sh, state):
             state["calls"].append(rec)
             sh.log("call_start", call=ci)
             try:
-                for y in (pre[ci] if pre is not None else m(make_input(call, ci, sh), call["chunk"])):
+                for y in (pre[ci] if pre is not None else m(make_input(call, ci, sh), chunk_arg(call))):
                     rec["yields"].append(_compact(y, call))
                 rec["completed"] = True
             except instr.InjectedFault:
